@@ -16,13 +16,19 @@
         outputs P (init inp cells cap) ops = outputs P (init inp cells cap) (dropLru ops)
       where `dropLru` erases `lruCap` / `evict` and both sides equal the from-scratch values
       (= `c01_s3` soundness of Core3 for programs WITH `lru` kinds).
-    c05_bound (known to be false on the unchanged tree, see DESIGN.md §C05).
+  `c05_bound` was false on the unchanged tree (DESIGN.md §C05); with the repair of
+  `maybe_changed_after_cold` (`record_use` after the re-execution, mirrored in `mcaStep`) it is
+  PROVED below for histories that never set the capacity to 0 (`c05_cover`, `c05_bound`).  Not
+  covered: values cached while the capacity was 0 and kept after it became non-zero ("requested
+  since enabled" needs a ghost set; intended statement: the same with `Cached` restricted to keys
+  requested since the last `lruCap 0`).
   What is proved instead: `c05_transparent_noLru_partial` — for programs without `lru` kinds the
   LRU operations change no answer (there both sides equal `sem`).
 -/
 import SalsaVerif.Model.Core3
 import SalsaVerif.Proofs.Core3Top
 import SalsaVerif.Proofs.Core3Trace
+import SalsaVerif.Proofs.Core3Lru
 
 namespace SalsaVerif.Props.C05Engine
 open SalsaVerif.Model.Core3 SalsaVerif.Proofs.Core3
@@ -129,6 +135,30 @@ theorem c05_transparent_noLru_partial {P : Prog} (hP : Wf P) (hK : NoLru P) :
       exact ih _ _ (step_inv hP hK s (.cellSet c v i w nd) hs) (step_inv hP hK t (.cellSet c v i w nd) ht) w1
         (by simp only [step]; rw [w3, w4]; simp [setCell, hc]) w2
 
+/-- **Every evictable cached value is in the LRU set.**  From a fresh database whose `lru`
+    function has a non-zero capacity, after any history that never sets the capacity to 0
+    (`ops.all capOk`, decidable): every `lru`-kind memo that holds a value and is fully tracked is
+    a member of the LRU set (and the capacity is still non-zero).  No well-formedness needed. -/
+theorem c05_cover (P : Prog) (inp : Nat → Inp) (cells : Nat → Nat) (cap : Nat) (hcap : cap ≠ 0)
+    (ops : List Op) (hops : ops.all capOk = true) (q : Nat) (m : Memo)
+    (hk : P.kind q = .lru) (hm : (run P inp cells cap ops).memos q = some m)
+    (hv : m.value ≠ none) (hu : m.untracked = false) :
+    q ∈ (run P inp cells cap ops).lru.set ∧ (run P inp cells cap ops).lru.capacity ≠ 0 := by
+  obtain ⟨h1, h2⟩ := linv_run (P := P) inp cells cap hcap ops hops
+  exact ⟨h2 q (by simp) ⟨hk, m, hm, hv, hu⟩, h1⟩
+
+/-- **The bound.**  Right after `evict` or a revision bump (`set`, `synth`, … — every bump runs the
+    eviction), any duplicate-free list of keys holding an evictable cached value has at most
+    `capacity` elements. -/
+theorem c05_bound (P : Prog) (inp : Nat → Inp) (cells : Nat → Nat) (cap : Nat) (hcap : cap ≠ 0)
+    (ops : List Op) (hops : ops.all capOk = true) (keys : List Nat) (hnd : keys.Nodup)
+    (hkeys : ∀ q, q ∈ keys → Cached P (evictLru (run P inp cells cap ops)) q) :
+    keys.length ≤ (evictLru (run P inp cells cap ops)).lru.capacity := by
+  have h := linv_run (P := P) inp cells cap hcap ops hops
+  obtain ⟨a, b, c⟩ := lb_evictLru h.1 h.2
+  rw [b]
+  exact Nat.le_trans (nodup_subset_length keys _ hnd (fun q hq => a q (by simp) (hkeys q hq))) c
+
 /-! ### Non-vacuity: q0, q1, q2 of kind `lru` (capacity 2), q3 = q0 (plain reader) -/
 
 def exProg : List (Kind × Expr) :=
@@ -144,5 +174,11 @@ example : ((run (progOf exProg) exInp (fun _ => 0) 2 [.get 3, .get 1, .get 2, .s
     executed first and q0 is executed by q3's `fetch` — the C03 boundary of DESIGN.md -/
 example : (run (progOf exProg) exInp (fun _ => 0) 2 [.get 3, .get 1, .get 2, .set 0 3 none, .get 3]).trace.drop 4
     = [.exec 3, .exec 0] := by decide
+
+-- hypotheses of `c05_cover` / `c05_bound` on that history (capacity 2, never set to 0); after the
+-- bump exactly q1 and q2 are cached, both in the set
+example : [Op.get 3, .get 1, .get 2, .set 0 3 none].all capOk = true := by decide
+example : (run (progOf exProg) exInp (fun _ => 0) 2 [.get 3, .get 1, .get 2, .set 0 3 none]).lru.set = [1, 2] := by
+  decide
 
 end SalsaVerif.Props.C05Engine
